@@ -444,10 +444,11 @@ public:
 
         operator bool() {
             if (!this->await_ready()) {
-                return this->wait();
-            } else {
-                return this->await_resume();
+                //just wait, don't use wait(), it returns the (old) value instead of the status
+                this->sync();
             }
+            //load the next value and return the status
+            return this->await_resume();
         }
         bool await_resume() {
             return this->_owner.check_next();
